@@ -22,6 +22,8 @@ var conceptCmd = &cobra.Command{
 		if dependence != "" {
 			analyser := concept.NewConceptAnalyser()
 			file := cmd_util.ReadFile(dependence)
+			// the decoder fills what is already there: start from an empty model
+			parsedDeps = nil
 			_ = json.Unmarshal(file, &parsedDeps)
 
 			wordCounts := analyser.Analysis(&parsedDeps)
